@@ -66,7 +66,7 @@ Fixpoint plain_at (emb : bool) (t : ty) {struct t} : bool :=
                    && plain_at false ft)
              && go fs'
          end) fs
-  | TCustom c dto => c_known c && plain_at false dto
+  | TCustom c dto => c_known c && lossless dto      (* a hand-modelled, lossless DTO *)
   | TOpaque _ => false
   | TOther _ => true
   end.
